@@ -1105,7 +1105,20 @@ impl<'a> InputIndexer for Utf16Input<'a> {
         let new_range = &self.input[self.pos_to_offset(start)..self.pos_to_offset(end)];
         let old_range = &self.input[self.pos_to_offset(range.start)..self.pos_to_offset(range.end)];
 
-        new_range == old_range
+        if new_range != old_range {
+            return false;
+        }
+        // Equal code units are equal characters only if the far edge does not fall between the two
+        // halves of a surrogate pair (a captured lone surrogate is not half of a pair).
+        let edge = self.pos_to_offset(if Dir::FORWARD { end } else { start });
+        if edge > 0
+            && edge < self.input.len()
+            && Self::is_high_surrogate(self.input[edge - 1])
+            && Self::is_low_surrogate(self.input[edge])
+        {
+            return false;
+        }
+        true
     }
 
     fn match_bytes<const N: usize, Dir: Direction>(
